@@ -106,6 +106,35 @@ def _judge_once(ctx, n, edges, after_edit=False):
             return np.float64(0.25) if r else None
         return r
 
+    # the callable as callers have it: a plain function, one with further optional parameters, a functools.partial with
+    # a bound keyword, a variadic function, a callable object, a bound method
+    kind = (2 * n + len(edges)) % 7
+    base_cmp = cmp
+    if kind == 1:
+        def cmp(a, b, max_gap=1.0, *, strict=False):
+            return base_cmp(a, b)
+    elif kind == 2:
+        import functools
+
+        def _with_gap(a, b, max_gap):
+            return base_cmp(a, b)
+        cmp = functools.partial(_with_gap, max_gap=2.0)
+    elif kind == 3:
+        def cmp(*pair):
+            return base_cmp(*pair)
+    elif kind == 4:
+        class _Similar:
+            threshold = 0.5
+
+            def __call__(self, a, b, weight=None):
+                return base_cmp(a, b)
+        cmp = _Similar()
+    elif kind == 5:
+        class _Model:
+            def similar(self, a, b):
+                return base_cmp(a, b)
+        cmp = _Model().similar
+    ctx.mon("comparison_callable_kinds")
     try:
         seqs = G.group_sound_events(tuple(evs) if (n + len(edges)) % 4 == 1 else evs, cmp)
     except Exception as e:
